@@ -468,7 +468,7 @@ impl Prop for C09 {
         r
     }
     fn cases(tier: Tier) -> u64 {
-        scale(tier, 160_000, 4_000_000)
+        scale(tier, 600_000, 4_000_000)
     }
     fn rule() -> &'static str {
         "a valid arena file produced by a short Engine-A history (with stale non-zero bytes left above the cursor by an on-top release), then either (A) one mutation - any of the eight identification bytes to any value, truncation to any length, replacement by arbitrary bytes, or a different expected freelist kind / magic version, in one case in four on top of the crash state of the free list (a linked segment whose size field is 0, which a successful writable open repairs) - opened through map_mut / map_copy / map / map_copy_read_only or their *_with_path_builder forms with capacity same / larger / absent and with or without create: the open must fail whenever the decoded fields (magic text, magic version, format version, freelist byte, expected freelist for writable opens, header-prefix size) say so, and after every failed open the first old_len bytes of the file are identical; or (B) a read-only open (map / map_copy_read_only) followed by 1..8 calls over the safe mutating surface (all alloc flavours incl. zero-size, discard_freelist, set_minimum_segment_size, increase_discarded, clear, flush*, truncate, readers): each returns ReadOnly / PermissionDenied, panics with a read-only message, or returns with state and memory unchanged; no signal; file identical afterwards. Non-trivial = a refused open on a file with stale bytes above the cursor, or a read-only session with >= 3 distinct mutators"
